@@ -59,7 +59,12 @@ def handle (op real : String) : Verdict := Id.run do
   let model := match verdict, badYaml with
     | _, true => "refused:1"          -- a configuration file that cannot be read as one is not a configuration to run with
     | some _, _ => "refused:1"
-    | none, _ => s!"started:ver={cfg.version.getD 0},max={cfg.maxVersion.getD 0}"
+    | none, _ =>
+      -- the override in force: the named level (default LOCAL_QUORUM); it is applied to a write whose level is listed
+      let ov := match effective toks "unsupported-write-consistencies" with
+        | some _ => s!",ov={(NamesSpec.consistencyOf (bytesOf (opt "unsupported-write-consistency-override" "LOCAL_QUORUM"))).getD 99}"
+        | none => ""
+      s!"started:ver={cfg.version.getD 0},max={cfg.maxVersion.getD 0}{ov}"
   let sig := match verdict with
     | some r => s!"{backend}-refuse-{((reprStr r).takeWhile (· != ' ')).toString}"
     | none => s!"{backend}-start{if badYaml then "-badyaml" else ""}"
